@@ -16,7 +16,7 @@
 EXTENDS Integers, Sequences, FiniteSets, TLC, Json, IOUtils
 
 Cap == 256
-T == INSTANCE TcpTable WITH Cap <- Cap, Timeout <- 0, SockIds <- {}, MaxT <- 0,
+T == INSTANCE TcpTable WITH Cap <- Cap, Timeout <- 0, SockIds <- {}, MaxT <- 0, Evicts <- TRUE,
                             table <- <<>>, now <- 0, closed <- {}, taken <- {}, opened <- {}
 
 Rec == ndJsonDeserialize(IOEnv.TRACE)
